@@ -192,6 +192,8 @@ def run(shard, rec):
             two_k = mk(1 << k)
             if F.is_zero(E(two_k)):
                 continue
+            if other.characteristic != 2 or k == 0:
+                _ = other(3) >> k                       # the same shift amount in another field just before (caches keyed on the amount only would be stale)
             for op, r, e in (('lshift', a << k, a * (1 << k)), ('rshift', a >> k, a / (1 << k))):
                 rec.count('operator_results')
                 bad = inv_ok(r, op)
